@@ -210,6 +210,12 @@ func c06Sim(r *simcore.Run) {
 			}
 			rs := vRuleSet(src, next)
 			apply = func() error { return proc.OnCreated(rs) }
+			if kind == "create" && s.Draw(4, "reported-as-update") == 3 {
+				// the kubernetes provider reports the next version of a resource as an update even if the version before
+				// was refused (or unloaded): for the repository that is the first version of this source
+				kind = "create-by-update"
+				apply = func() error { return proc.OnUpdated(rs) }
+			}
 		case action <= 1:
 			kind = "delete"
 			rs := vDeletion(s.Draw(3, "deletion-shape"), src, model.sets[src])
